@@ -1,6 +1,11 @@
 //! This module contains the definition of the virtual machine's memory.
 
-use std::{collections::HashMap, hash::Hash};
+#[cfg(not(smlxl_storage_layout_extractor_verif))]
+use std::collections::HashMap;
+use std::hash::Hash;
+
+#[cfg(smlxl_storage_layout_extractor_verif)]
+use crate::verif::collections::HashMap;
 
 use crate::{
     constant::WORD_SIZE_BITS,
